@@ -1,8 +1,14 @@
 #!/bin/sh
-# setup_cmd: offline build of the harness from files on disk only.
+# setup_cmd: offline build of the harness (stable toolchain) and, best effort, of the libFuzzer
+# targets used by the thorough tier (nightly toolchain, cargo-fuzz) from files on disk only.
 set -eu
 HERE=$(cd "$(dirname "$0")" && pwd)
 export CARGO_NET_OFFLINE=true
 cd "$HERE/harness"
 cargo build --release --offline
 "$HERE/harness/target/release/pv" selftest
+cd "$HERE/harness/fuzz"
+if ! cargo +nightly fuzz build -s none >"$HERE/harness/fuzz-build.log.tmp" 2>&1; then
+    echo "warning: libFuzzer targets did not build (thorough tier of C01 C03 C04 C09 C14 C17 will report exit 2):"
+    tail -5 "$HERE/harness/fuzz-build.log.tmp"
+fi
